@@ -1406,7 +1406,11 @@ class Scene(Geometry3D):
         appended : trimesh.Scene
            Scene with geometry from both scenes
         """
-        result = append_scenes([self, other], common=[self.graph.base_frame])
+        result = append_scenes(
+            [self, other],
+            common=[self.graph.base_frame],
+            base_frame=self.graph.base_frame,
+        )
         return result
 
 
@@ -1496,13 +1500,18 @@ def append_scenes(iterable, common=None, base_frame="world"):
            Node name in concatenated scene
         """
 
+        # the base frame of every scene is the base frame of the result
+        if node == base_current:
+            return base_frame
+
         # if we've already remapped a node use it
         if node in map_node:
             return map_node[node]
 
         # if a node is consumed and isn't one of the nodes
         # we're going to hold common between scenes remap it
-        if node not in common and node in consumed:
+        # an inner node may not take the name of the base frame either
+        if node == base_frame or (node not in common and node in consumed):
             # generate a name not in consumed
             name = node + util.unique_id()
             map_node[node] = name
@@ -1535,6 +1544,9 @@ def append_scenes(iterable, common=None, base_frame="world"):
         # remap nodes and edges so duplicates won't
         # stomp all over each other
         map_node = {}
+        # transforms of this scene are relative to its own base frame
+        # which may have been renamed, i.e. by `Scene.rezero`
+        base_current = s.graph.base_frame
         # the nodes used in this scene
         current = set()
         for a, b, attr in s.graph.to_edgelist():
